@@ -956,13 +956,17 @@ Definition wrap_sig (pf : pform) (body : bytes) : bytes :=
   | FPartial ks f => 194 :: partial_chunks ks f body
   end.
 
+(* a multiprecision integer (RFC 4880 3.2): its bit count and its octets *)
+Definition enc_mpib (m : N * bytes) : bytes := N_to_be 2 (fst m) ++ snd m.
+Definition mpib_ok (m : N * bytes) : bool := (fst m <? 65536) && (lenN (snd m) =? (fst m + 7) / 8).
+
 Record gsig := mkgsig {
   gs_form : pform;
   gs_version : N;                               (* 2, 3: a version 3 packet; 4: a version 4 packet *)
   gs_sigtype : N; gs_algo : N; gs_hash : N;
   gs_created : N; gs_issuer : N;                (* version 3: fixed fields *)
   gs_hashed : list subpkt; gs_unhashed : list subpkt;   (* version 4: subpacket areas *)
-  gs_hashtag : bytes; gs_mpis : list bytes }.
+  gs_hashtag : bytes; gs_mpis : list (N * bytes) }.
 
 Definition enc_subs (l : list subpkt) : bytes := flat_map enc_sub l.
 
@@ -973,7 +977,7 @@ Definition gsig_body (s : gsig) : bytes :=
      [4; gs_sigtype s; gs_algo s; gs_hash s]
      ++ N_to_be 2 (lenN (enc_subs (gs_hashed s))) ++ enc_subs (gs_hashed s)
      ++ N_to_be 2 (lenN (enc_subs (gs_unhashed s))) ++ enc_subs (gs_unhashed s))
-  ++ gs_hashtag s ++ flat_map enc_mpi (gs_mpis s).
+  ++ gs_hashtag s ++ flat_map enc_mpib (gs_mpis s).
 
 Definition gencode_sig (s : gsig) : bytes := wrap_sig (gs_form s) (gsig_body s).
 
@@ -981,7 +985,7 @@ Definition gsig_ok (s : gsig) : bool :=
   hash_known (gs_hash s)
   && Nat.eqb (length (gs_hashtag s)) 2
   && match sig_mpis (gs_algo s) with Some k => Nat.eqb (length (gs_mpis s)) k | None => false end
-  && forallb (fun m => lenN m <? 8192) (gs_mpis s)
+  && forallb mpib_ok (gs_mpis s)
   && pform_ok (gs_form s) (lenN (gsig_body s))
   && (if gs_version s <? 4 then
         (2 <=? gs_version s) && sig3_algo_ok (gs_algo s)
